@@ -401,7 +401,7 @@ func checkC10(c *core.Ctx) {
 		if !pm.AllInRange() || !pm.TotalBelow(960, 1<<28) {
 			return
 		}
-		conv := run(c, []byte(text), "text", "conv", "degree")
+		conv := runCPU(c, 120, []byte(text), "text", "conv", "degree")
 		c.Eval(1)
 		if infra(c, conv) {
 			return
@@ -414,9 +414,9 @@ func checkC10(c *core.Ctx) {
 		for _, via := range []string{"stdin", "file"} {
 			var w *runner.Result
 			if via == "stdin" {
-				w = run(c, conv.Stdout, "write")
+				w = runCPU(c, 120, conv.Stdout, "write")
 			} else {
-				w = run(c, nil, "write", c.Scratch.File("large.yml", conv.Stdout))
+				w = runCPU(c, 120, nil, "write", c.Scratch.File("large.yml", conv.Stdout))
 			}
 			c.Eval(1)
 			if infra(c, w) {
@@ -436,7 +436,7 @@ func checkC10(c *core.Ctx) {
 				return
 			}
 		}
-		wc := run(c, conv.Stdout, "write", "conv", "-c", "cmt")
+		wc := runCPU(c, 120, conv.Stdout, "write", "conv", "-c", "cmt")
 		c.Eval(1)
 		if infra(c, wc) {
 			return
